@@ -2512,10 +2512,45 @@ int coefficient_divides(const lp_polynomial_context_t* ctx, const coefficient_t*
   TRACE("coefficient", "coefficient_divides()\n");
   STAT_INCR(coefficient, divides)
 
-  coefficient_t R;
+  // Everything divides 0
+  if (coefficient_is_zero(ctx, C2)) {
+    return 1;
+  }
+
+  int cmp_type = coefficient_cmp_type(ctx, C2, C1);
+
+  // C1 has a variable that C2 (non-zero) does not have
+  if (cmp_type < 0) {
+    return 0;
+  }
+
+  // Two constants
+  if (C2->type == COEFFICIENT_NUMERIC) {
+    return integer_divides(ctx->K, &C1->value.num, &C2->value.num);
+  }
+
+  int divides = 1;
+
+  if (cmp_type > 0) {
+    // C1 is constant in the main variable of C2: it has to divide every coefficient
+    size_t i;
+    for (i = 0; divides && i < SIZE(C2); ++ i) {
+      divides = coefficient_divides(ctx, C1, COEFF(C2, i));
+    }
+    return divides;
+  }
+
+  // Same main variable x. With P*C2 = Q*C1 + R, P free of x (pseudo-division),
+  // C1 divides C2 iff R = 0 and P divides Q. A zero pseudo-remainder alone only
+  // says that C1 divides P*C2 (e.g. 2*x pseudo-divides x).
+  coefficient_t P, Q, R;
+  coefficient_construct(ctx, &P);
+  coefficient_construct(ctx, &Q);
   coefficient_construct(ctx, &R);
-  coefficient_prem(ctx, &R, C2, C1);
-  int divides = coefficient_is_zero(ctx, &R);
+  coefficient_reduce(ctx, C2, C1, &P, &Q, &R, REMAINDERING_PSEUDO_SPARSE);
+  divides = coefficient_is_zero(ctx, &R) && coefficient_divides(ctx, &P, &Q);
+  coefficient_destruct(&P);
+  coefficient_destruct(&Q);
   coefficient_destruct(&R);
 
   return divides;
